@@ -169,7 +169,7 @@ def rule_ids(repo, rule):
                   if isinstance(c_, ast.Call) and norm(c_.func).endswith(".PrependByte") and c_.args]
         if idloops and vloops and vloops[0] and idloops[0][1] is not None and vloops[0][0][1] is not None:
             a_, b_ = idloops[0][1], vloops[0][0][1]
-            if (a_.base, a_.rev) == (b_.base, b_.rev):
+            if a_.same_walk(b_):
                 rule.ok(wv.loc(ids[0]), wv.fq, "ids and values are written over `%s` in the same order" % a_.base)
             else:
                 rule.violation(wv.loc(ids[0]), wv.fq, "ids over %s%s, values over %s%s" % (a_.base, " reversed" if a_.rev else "", b_.base,
@@ -234,7 +234,7 @@ def rule_ids(repo, rule):
                           if isinstance(c_, ast.Call) and norm(c_.func).endswith(".PrependByte") and c_.args]
                     if vl and vl[0] and vl[0][0][1] is not None:
                         a_, b_ = lps[0][1], vl[0][0][1]
-                        if (a_.base, a_.rev) == (b_.base, b_.rev):
+                        if a_.same_walk(b_):
                             rule.ok(f_.loc(n), f_.fq, "term ids and coefficients are written over `%s` in the same order" % a_.base)
                         else:
                             rule.violation(f_.loc(n), f_.fq, "ids over %s%s, coefficients over %s%s" % (
